@@ -353,3 +353,19 @@ func VerifC05_PreemptProgress() {
 		vr.Assert(len(w.cache.evicts) == 1 && w.placed(w.pending), "C05.job-preempts-lower-priority-workload-of-its-queue-within-the-cycle")
 	}
 }
+
+// VerifC05_ReclaimProgressAcrossDepartments: the reclaimer and the over-quota queue are in different
+// departments; the victim department is over its quota only when its leaf queues are summed.
+// BOUND: 1 full node; d1 <- qa (pending pod), d2 <- qb, qc with one running preemptible pod each; one shared symbolic cpu request; symbolic deserved quotas and fair shares
+func VerifC05_ReclaimProgressAcrossDepartments() {
+	w := actEvictWorld(evictOpts{bits: 5, twoDepts: true, nVictims: 2, victimQ: []string{"qb", "qc"}, pendingQ: "qa", sameCpu: true, fixedPreemptibleVictims: true, fixedPending: true})
+	reclaim.New().Execute(w.ssn)
+	w.observe()
+	cpu := w.pending.cpu[0]
+	des := func(q string) float64 { return w.queueOf(q).deserved }
+	// the pending job keeps its queue and department within deserved quota; queue qc and its department
+	// are over theirs
+	if cpu <= des("qa") && cpu <= des("d1") && w.pre["qc"] > des("qc") && w.pre["d2"] > des("d2") {
+		vr.Assert(len(w.cache.evicts) >= 1 && w.placed(w.pending), "C05.in-quota-job-reclaims-from-over-quota-queue-of-another-department")
+	}
+}
